@@ -35,7 +35,10 @@ sensitivity)
     n=$((n+1))
     case "$name" in
       neutral-*)
-        for p in C02 C07 C10 C17 C18; do
+        plist="C02 C07 C10 C17 C18"
+        # a sidecar <name>.props restricts a neutral patch to the properties it is neutral for
+        [ -f "$VERIF/mutants/$name.props" ] && plist="$(cat "$VERIF/mutants/$name.props")"
+        for p in $plist; do
           [ -n "${SELFTEST_PROPS:-}" ] && case " $SELFTEST_PROPS " in *" $p "*) ;; *) continue;; esac
           out="$(VERIF_REPO="$tree" "$VERIF/check" "$p" quick -no-evidence -verif "$TMP/out" 2>&1)"; rc=$?
           if [ $rc -ne 0 ]; then echo "SELFTEST $name: FALSE ALARM from $p (exit $rc)"; echo "$out" | grep -E "VIOLATION|invariant|TROUBLE" | head -5; fail=1; else echo "SELFTEST $name: $p silent (ok)"; fi
